@@ -7,6 +7,7 @@ import (
 	"net"
 	"net/http"
 	"os"
+	"os/user"
 	"path/filepath"
 	"strings"
 	"testing"
@@ -293,6 +294,30 @@ func runC19(c c19Case, st *hx.Stats) error {
 			f := filepath.Join(tmp, "by-env.ini")
 			ini[f] = append(ini[f], line)
 			env = append(env, "PS3NETSRV_CONFIG_FILE="+f)
+		case "config-flag-home", "config-env-home":
+			// the file lives in the home directory and is named the way a shell user writes it when the shell does not
+			// expand it (quoted, in a unit file, in a container's environment): the program expands "~/" itself
+			// ("~" is the home directory of the user database, not $HOME: the file has to be put into the real one)
+			u, err := user.Current()
+			if err != nil || u.HomeDir == "" {
+				st.Label("no home directory known: case skipped")
+				return nil
+			}
+			name := fmt.Sprintf(".verif-c19-%d-%s.ini", os.Getpid(), filepath.Base(tmp))
+			f := filepath.Join(u.HomeDir, name)
+			if a.Value != "file-missing" {
+				if err := os.WriteFile(f, nil, 0o600); err != nil {
+					st.Label("home directory not writable: case skipped")
+					return nil
+				}
+			}
+			defer os.Remove(f)
+			ini[f] = append(ini[f], line)
+			if a.Channel == "config-flag-home" {
+				args = append([]string{"--config=~/" + name}, args...)
+			} else {
+				env = append(env, "PS3NETSRV_CONFIG_FILE=~/"+name)
+			}
 		case "cwd-ini":
 			f := filepath.Join(w.cwd, "config.ini")
 			ini[f] = append(ini[f], line)
@@ -494,6 +519,20 @@ func c19FileCases(yield func(c19Case) bool) {
 	}
 }
 
+// c19HomeCases: configuration files named relative to the home directory ("~/...").
+func c19HomeCases(yield func(c19Case) bool) {
+	for _, s := range []string{"client-whitelist", "root", "read-timeout"} {
+		for _, ch := range []string{"config-flag-home", "config-env-home"} {
+			for _, v := range []string{"A", "B"} {
+				if !yield(c19Case{Setting: s, Assigns: []c19Assign{{ch, v}}}) {
+					return
+				}
+			}
+		}
+	}
+	yield(c19Case{Setting: "client-whitelist", Assigns: []c19Assign{{"config-env-home", "file-missing"}}})
+}
+
 func TestC19Config(t *testing.T) {
 	st := hx.NewStats("C19", "config")
 	st.MarkExhaustive("9 settings x 7 channels x 2 values (single channel); all flag-vs-other pairs; 3 malformed forms (wrong syntax, second wrong form, empty) per security-relevant setting per channel; other channel pairs sampled 1/3 in quick, all in thorough")
@@ -501,7 +540,10 @@ func TestC19Config(t *testing.T) {
 		ok := true
 		c19Cases(func(c c19Case) bool { ok = yield(c); return ok })
 		if ok {
-			c19FileCases(yield)
+			c19FileCases(func(c c19Case) bool { ok = yield(c); return ok })
+		}
+		if ok {
+			c19HomeCases(yield)
 		}
 	}
 	hx.RunCases(t, st, all, runC19, hx.PropOpts{})
